@@ -1,11 +1,13 @@
 #!/bin/sh
-# MANIFEST.setup_cmd: build everything from files on disk, offline.
-set -e
+# MANIFEST.setup_cmd: build everything from files on disk, offline.  Each check rebuilds its own cone
+# afterwards, so a failure in one property's files must not stop the others being prepared (-k, || true).
 cd "$(dirname "$0")/.."
 export CARGO_NET_OFFLINE=true
 mkdir -p work evidence replays
 cp /repo/Cargo.lock harness/Cargo.lock
 cp /repo/rust-toolchain.toml harness/rust-toolchain.toml
-(cd coq && coq_makefile -f _CoqProject -o Makefile && timeout 3000 make -j16) 
-(cd harness && cargo build --offline --release --features avx)
+python3 -c "import sys; sys.path.insert(0,'tools'); import check; check.coq_makefile()"
+(cd coq && timeout 3000 make -k -j16 > ../work/setup_coq.log 2>&1) || echo "setup: some Coq files failed (see work/setup_coq.log)"
+(cd harness && cargo build --offline --release --features avx --bins > ../work/setup_cargo.log 2>&1) || echo "setup: some harness binaries failed (see work/setup_cargo.log)"
 echo setup done
+exit 0
